@@ -1,8 +1,9 @@
 SPECIFICATION Spec
 CONSTANTS
   Subjects = {"alice", "bob"}
-  MaxReq = 3
-  MaxIdp = 2
+  MaxReq = 2
+  MaxIdp = 1
+  MinConsume = 3
   MaxSteps = 7
 INVARIANTS Authentic NoReplay PendingSane AnswersOnlyIdP Emit
 PROPERTIES LogoutOnlyByIdP
